@@ -554,14 +554,76 @@ pub fn gen_faucet(r: &mut Rng, w: &mut Wallet, cx: &Ctx) -> Transaction {
 }
 
 /// mutate a (probably valid) transaction; returns a label
-pub fn mutate(r: &mut Rng, w: &Wallet, tx: &mut Transaction, inputs_known: &[WCoin], mult: u128) -> &'static str {
+pub fn mutate(r: &mut Rng, w: &Wallet, tx: &mut Transaction, inputs_known: &[WCoin], mult: u128, hostile: bool) -> &'static str {
     let resign = |tx: &mut Transaction| {
         let ins: Vec<WCoin> = tx.inputs.iter().filter_map(|i| inputs_known.iter().find(|c| c.id == *i).cloned()).collect();
         if ins.len() == tx.inputs.len() {
             sign(w, tx, &ins);
         }
     };
-    match r.below(18) {
+    let top = if hostile { 26 } else { 18 };
+    match r.below(top) {
+        18 => {
+            // a covenant of arbitrary bytes that is actually used: send an output to its hash (spent by a later tx)
+            let n = r.below(24) as usize;
+            let cov: Bytes = r.bytes(n).into();
+            if let Some(o) = tx.outputs.get_mut(0) {
+                o.covhash = Address(tmelcrypt::hash_single(&cov));
+            }
+            tx.covenants.push(cov);
+            resign(tx);
+            "garbage-covenant"
+        }
+        19 => {
+            for o in tx.outputs.iter_mut() {
+                o.value = CoinValue(1 << 120);
+            }
+            tx.fee = CoinValue(1 << 120);
+            resign(tx);
+            "max-values"
+        }
+        20 => {
+            let n = *r.pick(&[254usize, 255, 256]);
+            let proto = tx.outputs.get(0).cloned().unwrap_or(out(Address::coin_destroy(), 0, Denom::Mel));
+            tx.outputs = (0..n).map(|_| CoinData { value: CoinValue(0), ..proto.clone() }).collect();
+            resign(tx);
+            "many-outputs"
+        }
+        21 => {
+            // a proof-of-work payload that decodes but is garbage (known finding F9 when it reaches melpow)
+            tx.kind = TxKind::DoscMint;
+            let n = r.below(90) as usize;
+            let d = r.below(12) as u32;
+            tx.data = stdcode::serialize(&(d, r.bytes(n))).unwrap().into();
+            resign(tx);
+            "garbage-pow"
+        }
+        22 => {
+            tx.sigs = (0..r.below(4)).map(|_| { let n = r.below(70) as usize; Bytes::from(r.bytes(n)) }).collect();
+            "garbage-sigs"
+        }
+        23 => {
+            for o in tx.outputs.iter_mut() {
+                let n = r.below(300) as usize;
+                o.additional_data = r.bytes(n).into();
+            }
+            resign(tx);
+            "big-additional-data"
+        }
+        24 => {
+            for o in tx.outputs.iter_mut() {
+                o.value = CoinValue(0);
+            }
+            resign(tx);
+            "zero-values"
+        }
+        25 => {
+            tx.kind = TxKind::Stake;
+            let n = r.below(60) as usize;
+            tx.data = r.bytes(n).into();
+            resign(tx);
+            "garbage-stakedoc"
+        }
         16 | 17 if !tx.inputs.is_empty() => {
             // a faucet is exempt from balancing but its inputs still need their covenants' approval
             tx.kind = TxKind::Faucet;
@@ -587,7 +649,7 @@ pub fn mutate(r: &mut Rng, w: &Wallet, tx: &mut Transaction, inputs_known: &[WCo
         }
         1 if !tx.outputs.is_empty() => {
             let k = r.below(tx.outputs.len() as u64) as usize;
-            tx.outputs[k].value = CoinValue(tx.outputs[k].value.0 + 1);
+            tx.outputs[k].value = CoinValue(tx.outputs[k].value.0.saturating_add(1));
             resign(tx);
             "unbalance+1"
         }
@@ -604,9 +666,11 @@ pub fn mutate(r: &mut Rng, w: &Wallet, tx: &mut Transaction, inputs_known: &[WCo
             if m > 0 && tx.kind != TxKind::Faucet {
                 // move the difference into nothing: fee = min - 1 (unbalanced too unless re-balanced)
                 if let Some(o) = tx.outputs.iter_mut().find(|o| o.denom == Denom::Mel) {
-                    let diff = tx.fee.0 - (m - 1);
-                    o.value = CoinValue(o.value.0 + diff);
-                    tx.fee = CoinValue(m - 1);
+                    if tx.fee.0 >= m - 1 {
+                        let diff = tx.fee.0 - (m - 1);
+                        o.value = CoinValue(o.value.0.saturating_add(diff));
+                        tx.fee = CoinValue(m - 1);
+                    }
                 }
             }
             resign(tx);
@@ -669,7 +733,7 @@ pub fn mutate(r: &mut Rng, w: &Wallet, tx: &mut Transaction, inputs_known: &[WCo
             "tamper-additional-data"
         }
         _ => {
-            tx.fee = CoinValue(tx.fee.0 + 1);
+            tx.fee = CoinValue(tx.fee.0.saturating_add(1));
             "fee+1-unbalanced"
         }
     }
